@@ -194,10 +194,10 @@ pub fn oneshot(sub: &str, _rest: &[String], out: &mut dyn Write) -> bool {
             }
             true
         }
-        // cargocb <depfile|-> <formatter none|rustfmt|prettyplease> <header> [clang args...]
         // runs a real generation with CargoCallbacks plus a recording callback; stdout carries the
         // cargo lines (printed by bindgen itself) and "CB <kind> <percent-encoded arg>" lines.
         "cargocb" => {
+            // cargocb <depfile|-> <formatter> <n> <header 1> .. <header n> [clang args...]
             #[derive(Debug)]
             struct Rec;
             impl bindgen::callbacks::ParseCallbacks for Rec {
@@ -211,11 +211,15 @@ pub fn oneshot(sub: &str, _rest: &[String], out: &mut dyn Write) -> bool {
                     println!("CB read_env_var {}", enc(k));
                 }
             }
-            let mut b = bindgen::Builder::default()
-                .header(dec(&_rest[2]))
+            let n: usize = _rest[2].parse().unwrap();
+            let mut b = bindgen::Builder::default();
+            for h in &_rest[3..3 + n] {
+                b = b.header(dec(h));
+            }
+            b = b
                 .parse_callbacks(Box::new(bindgen::CargoCallbacks::new()))
                 .parse_callbacks(Box::new(Rec))
-                .clang_args(_rest[3..].iter().map(|s| dec(s)));
+                .clang_args(_rest[3 + n..].iter().map(|s| dec(s)));
             b = b.formatter(match _rest[1].as_str() {
                 "rustfmt" => bindgen::Formatter::Rustfmt,
                 "prettyplease" => bindgen::Formatter::Prettyplease,
